@@ -71,6 +71,48 @@ fn text_reference_cycle(src: &str, prog: &tx3_lang::ast::Program) -> bool {
     false
 }
 
+/// length of the longest chain of references local -> local -> ... -> input (in definitions) of a tx, decided
+/// on the source text of the blocks; 0 when there is a cycle (cycles have their own signature)
+fn max_reference_depth(src: &str, prog: &tx3_lang::ast::Program) -> usize {
+    use std::collections::{BTreeMap, BTreeSet};
+    use tx3_lang::parsing::AstNode;
+    let mut best = 0;
+    for tx in &prog.txs {
+        let mut text: BTreeMap<String, String> = BTreeMap::new();
+        let slice = |span: &tx3_lang::ast::Span| crate::grammar::strip_comments(src.get(span.start..span.end).unwrap_or(""));
+        if let Some(l) = &tx.locals {
+            for a in &l.assigns {
+                let t = slice(a.span());
+                text.insert(a.name.value.clone(), t.splitn(2, ':').nth(1).unwrap_or("").to_string());
+            }
+        }
+        for i in &tx.inputs {
+            let t = slice(i.span());
+            text.insert(i.name.clone(), t.splitn(2, '{').nth(1).unwrap_or("").to_string());
+        }
+        let names: BTreeSet<String> = text.keys().cloned().collect();
+        let edges: BTreeMap<String, Vec<String>> = text.iter().map(|(n, t)| (n.clone(), crate::grammar::tokenize(t).into_iter().filter(|tok| names.contains(tok) && tok != n).collect())).collect();
+        fn depth(n: &str, edges: &BTreeMap<String, Vec<String>>, memo: &mut BTreeMap<String, usize>, stack: &mut Vec<String>) -> usize {
+            if let Some(d) = memo.get(n) {
+                return *d;
+            }
+            if stack.iter().any(|s| s == n) {
+                return 0;
+            }
+            stack.push(n.to_string());
+            let d = 1 + edges.get(n).into_iter().flatten().map(|m| depth(m, edges, memo, stack)).max().unwrap_or(0);
+            stack.pop();
+            memo.insert(n.to_string(), d);
+            d
+        }
+        let mut memo = BTreeMap::new();
+        for n in &names {
+            best = best.max(depth(n, &edges, &mut memo, &mut vec![]));
+        }
+    }
+    best
+}
+
 impl C13 {
     /// the implication itself on one source text
     fn judge(&self, ctx: &mut Ctx, src: &str, mutators: &[String], phase: &str, has_cycle: bool) {
@@ -116,7 +158,9 @@ impl C13 {
                         tx3_lang::lowering::Error::InvalidAst(m) => m.split_whitespace().take(2).collect::<Vec<_>>().join(" ").trim_end_matches(':').to_string(),
                         _ => String::new(),
                     };
-                    let long_chain = mutators.iter().any(|m| m == "local-chain->=9");
+                    // the known pass-count limit: a chain of definitions (locals, then possibly an input and the
+                    // names its fields mention) 9 or more links deep - whichever mutators produced it
+                    let long_chain = mutators.iter().any(|m| m == "local-chain->=9") || max_reference_depth(src, &prog) >= 9;
                     let sig = if cycle {
                         "lower-err:[reference-cycle]".to_string()
                     } else if long_chain && matches!(e, tx3_lang::lowering::Error::MissingAnalyzePhase(_)) {
